@@ -1,5 +1,6 @@
 """C15 - syntax highlighting only recolours foregrounds, by the file's language."""
 import json
+import os
 import random
 import time
 
@@ -218,6 +219,122 @@ def limit_part(tier, V):
     return len(events)
 
 
+# ---------------------------------------------------------------------------------------------------
+# `git show rev:path`: the file is shown, highlighted in the language of the path's name (ShowFile)
+SF_CODE = ["let alpha = 1;", "fn main() {", "\tindented(\"tab\");", "", "// comment \u00e9 \u4e16\u754c", "    return x + 1  ", "}",
+           "def f(x): return [y for y in x if y]  # py"]
+SF_INNER = ["index 1..2 100644", "new file mode 100644", "deleted file mode 100644", "rename from x", "rename to y", "copy from x",
+            "similarity index 90%", "+++ b/x", "-removed", "+added", " context", "\\ No newline at end of file", "<<<<<<< HEAD",
+            "=======", "||||||| base", ">>>>>>> x", "Subproject commit abcdef1",
+            "ea82f2d0 (Dan Davison 2021-08-22 18:20:19 -0700 120) code", "src/x.rs:12:foo", " src/x.rs | 3 ++-", "Merge: 123 456",
+            "Author: x", "Date: y", "* commit abcdef1234567", "| | diff --git a/x b/x"]
+SF_MARKER = ["commit abcdef1234567", "diff --git a/x b/x", "@@ -1 +1 @@", "--- a/x", "old mode 100644", "new mode 100755",
+             "Only in a: b", "Submodule sub 1234567..89abcde:", "diff -u a b"]
+SF_NAMES = [("src/alpha.rs", "lib/deep/other.rs"), ("Makefile", "sub/Makefile"), ("notes.txt", "README.txt"), ("tool.py", "x/y.py"),
+            ("noext", "bin/other")]
+SF_ARGS = ["--no-gitconfig", "--true-color", "always", "--dark", "--width", "120", "--zero-style", 'syntax "#010203"']
+
+
+def showfile_part(tier, V):
+    mc = tlc.run_tlc("MC_ShowFile", cfg="MC_ShowFile", workers=2, coverage=False, timeout=600)
+    tlc.require_ok(mc, "MC_ShowFile")
+    if mc.violated:
+        V.drift.append(f"module=ShowFile design-level {mc.violated} violated")
+    reg = tlc.run_tlc("MC_ShowFile", cfg="MC_ShowFile_regression", workers=2, coverage=False, timeout=600)
+    if reg.violated != "Laws":
+        raise core.ToolError("regression config MC_ShowFile_regression was not rejected: the design-level check is vacuous")
+    gen = tlc.run_tlc("MC_ShowFile", cfg="MC_ShowFile_gen" if tier == "quick" else "MC_ShowFile_gen_thorough", workers=1, coverage=False,
+                      timeout=900)
+    tlc.require_ok(gen, "MC_ShowFile generation")
+    seqs = [v for t, v in gen.printed if t == "REPLAY"]
+    if len(seqs) < 300:
+        raise core.ToolError(f"only {len(seqs)} class sequences from MC_ShowFile")
+    binpath = os.path.join(core.FIXBIN, "bin")
+    if not os.path.exists(os.path.join(binpath, "git")):
+        raise core.ToolError("stub git missing: run ./setup.sh")
+    sdir = os.path.join(core.scratch(), "c15sf")
+    os.makedirs(sdir, exist_ok=True)
+    pools = {"code": SF_CODE, "inner": SF_INNER, "marker": SF_MARKER}
+    jobs = []
+    for i, sq in enumerate(seqs):
+        r2 = random.Random(core.seed() * 9173 + i)
+        # (a blame-like line is file content only when the caller names a file: elsewhere it opens a blame construct)
+        texts = [r2.choice([t for t in pools[c] if sq["caller"] == "showfile" or not t.startswith("ea82f2d0")]) for c in sq["lines"]]
+        jobs.append((i, sq["caller"], sq["lines"], texts, SF_NAMES[i % len(SF_NAMES)]))
+
+    def run_one(i, tag, caller, texts, name, extra):
+        data = ("\n".join(texts) + "\n").encode()
+        if caller == "none":
+            return core.run_delta(SF_ARGS + extra, data)
+        f = os.path.join(sdir, f"f{i}{tag}.txt")
+        with open(f, "wb") as fh:
+            fh.write(data)
+        cmd = ["git", "show", "HEAD:" + name] if caller == "showfile" else ["git", "show", "HEAD"]
+        r = core.run_delta(SF_ARGS + extra + cmd, b"", env={"PATH": binpath + ":/usr/bin:/bin", "STUB_OUT": f})
+        os.unlink(f)
+        return r
+
+    def one(job):
+        i, caller, cls, texts, (n1, n2) = job
+        a = run_one(i, "a", caller, texts, n1, ["--syntax-theme", "Monokai Extended"])
+        b = c = d = None
+        if caller == "showfile" and "marker" not in cls:
+            b = run_one(i, "b", caller, texts, n2, ["--syntax-theme", "Monokai Extended"])
+            c = run_one(i, "c", caller, texts, n1, ["--syntax-theme", "none"])
+            if "." in n1:
+                # the language of the name: the same file under a name that says nothing, with that language as the default
+                d = run_one(i, "d", caller, texts, "plainname", ["--syntax-theme", "Monokai Extended", "--default-language", n1.rsplit(".", 1)[1]])
+        return a, b, c, d
+    res = core.pmap(one, jobs)
+    intern = gitskin.Interner()
+    events, rel = [], []
+
+    def rows_of(r):
+        rows = r.out.split(b"\n")
+        if rows and rows[-1] == b"":
+            rows.pop()
+        return rows
+    for (i, caller, cls, texts, names), (a, b, c, d) in zip(jobs, res):
+        events.append({"run": i, "caller": caller, "code": a.code if not a.timed_out else 999, "empty": intern(b""),
+                       "lines": [{"c": k, "t": intern(t.expandtabs(8).encode())} for k, t in zip(cls, texts)],
+                       "rows": [{"t": intern(lexer.strip_ansi(x).decode("utf-8", "replace").expandtabs(8).encode()),
+                                 "p": b"48;2;1;2;3" in x} for x in rows_of(a)]})
+        if b is not None:
+            rel.append({"run": len(rel), "kind": "equal", "x": [intern(x) for x in rows_of(a)] + [1000000 + a.code],
+                        "y": [intern(x) for x in rows_of(b)] + [1000000 + b.code], "z": [], "ex": [], "_job": i, "_what": "name"})
+            if d is not None:
+                rel.append({"run": len(rel), "kind": "equal", "x": [intern(x) for x in rows_of(a)] + [1000000 + a.code],
+                            "y": [intern(x) for x in rows_of(d)] + [1000000 + d.code], "z": [], "ex": [], "_job": i, "_what": "lang"})
+            cx = [q for row in rows_of(a) for q in cell_rec(row) + [[10, [], [], []]]]
+            cy = [q for row in rows_of(c) for q in cell_rec(row) + [[10, [], [], []]]]
+            rel.append({"run": len(rel), "kind": "fgonly", "x": cx, "y": cy, "nosyn": [], "strict": False, "z": [], "ex": [],
+                        "_job": i, "_what": "theme"})
+    failed, tr = tlc.validate_trace("Trace_ShowFile", events)
+    drifts = [x for t, v in tr.printed if t == "DRIFT" for x in (v if isinstance(v, list) else [])]
+    for d in drifts[:4]:
+        V.drift.append(f"module=ShowFile painted / raw predicted otherwise for {jobs[d][3]!r} (caller {jobs[d][1]})")
+    for f in failed:
+        i, caller, cls, texts, names = jobs[f["run"]]
+        V.violation(f"showfile:{f['why']}:{caller}:{texts}", f"git show file: {f['why']} for lines {texts!r} (classes {cls}, caller {caller}, "
+                    f"name {names[0]})", {"lines": texts, "caller": caller, "name": names[0], "run": res[f["run"]][0].to_json()})
+    rfailed, rtr = tlc.validate_trace("Trace_Rel", [{k: v for k, v in e.items() if not k.startswith("_")} for e in rel], heap="4g")
+    for f in rfailed:
+        e = rel[f["run"]]
+        i, caller, cls, texts, names = jobs[e["_job"]]
+        if e["_what"] == "lang":
+            V.violation(f"showfile:lang:{texts}:{names[0]}", f"git show HEAD:{names[0]} does not render {texts!r} as it renders the same file under "
+                        f"a name without extension with --default-language {names[0].rsplit('.', 1)[1]} (row {f['at']})", {"lines": texts, "name": names[0]})
+        elif e["_what"] == "name":
+            V.violation(f"showfile:name:{texts}:{names}", f"git show HEAD:{names[0]} and HEAD:{names[1]} (same kind of name) render {texts!r} "
+                        f"differently (row {f['at']})", {"lines": texts, "names": names})
+        else:
+            V.violation(f"showfile:theme:{texts}:{names[0]}", f"git show HEAD:{names[0]}: the rendering of {texts!r} under a theme differs from the "
+                        f"one without highlighting in more than foreground colours (cell {f['at']})", {"lines": texts, "name": names[0]})
+    log(f"[{PID}] git show rev:path: {len(events)} runs judged by TLC (Trace_ShowFile), {len(failed)} rejected, {len(drifts)} drift; "
+        f"{len(rel)} relational judgements, {len(rfailed)} rejected")
+    return {"showfile_runs": len(events), "showfile_relational": len(rel), "showfile_design_states": mc.distinct}
+
+
 def twin_part(tier, V):
     jobs = [(name, view, theme) for name in TWINS for view in ("unified", "side-by-side") for theme in ("Monokai Extended", "Dracula", "GitHub")]
 
@@ -261,6 +378,7 @@ def run(tier):
     sp = stream_part(tier, V, rnd)
     sp["twin_style_triples"] = twin_part(tier, V)
     sp["highlighting_limit_pairs"] = limit_part(tier, V)
+    sp.update(showfile_part(tier, V))
     jobs = []
     n = 120 if tier == "quick" else 1500
     for i in range(n):
